@@ -24,7 +24,7 @@ PROVIDED_D = [14, 15, 16, 17, 18, 19, 21, 22, 24, 26, 27, 28, 30, 32, 34, 35]
 def rust_pat(mid, p):
     path, nargs = METHODS[mid]
     body = ""
-    if p.get("macro") and p["matcher"] is not None and nargs in (1, 2) and not (p["matcher"] >> 16) & 1:
+    if p.get("macro") and p["matcher"] is not None and p["dbg"] is not None and nargs in (1, 2) and not (p["matcher"] >> 16) & 1:
         # the same matcher written with matching!: a guarded wildcard-only pattern when the mask accepts everything / nothing (a guard
         # that does not look at the arguments), a binding with a guard otherwise; the harness' pattern name is set afterwards
         m8 = p["matcher"] & 255
